@@ -126,7 +126,7 @@ PROPS["C15"] = {
              "'decorated' values nobody's helper wrote: 1..3 qualified names with blanks / tabs / line ends before, after or around the "
              "value or a comma, leading / trailing / doubled commas (each must be refused with empty results; alone or next to a good key). "
              "Non-trivial iff combined name length in 61..65, "
-             "or a CDI key pre-exists, or success with >= 2 devices; distinct = distinct cases."),
+             "or a CDI key pre-exists, or success with >= 2 devices; distinct = distinct cases. ParseAnnotations is also given maps with 2..5 CDI keys of 1..12 devices each (one case in four); the devices of one key must come back in the order of its value."),
     "exhaustive_part": "all (plugin, id) with combined length <= 4 over 8 symbols x key used/unused; all lengths 1..70 x all split points",
     "assumptions": ["a request with valid plugin, id, devices and an unused key must succeed (doc comment of UpdateAnnotations)"],
     "manifest": {
@@ -194,7 +194,7 @@ PROPS["C01"] = {
              "ListDevices, GetDevice for all 18 names of the pools (path, priority, definition, Spec), ListVendors, ListClasses, "
              "GetVendorSpecs, and no GetErrors key for a valid conflict-free file. One case = one step. Layouts may hold an exact copy of a valid file under another Spec name, named pipes and sockets, symbolic links to Spec files. "
              "Non-trivial iff >= 2 slots and some "
-             "name defined by >= 2 valid files; distinct = distinct layout states."),
+             "name defined by >= 2 valid files; distinct = distinct layout states. Round 9/10 additions: the action rewriteInPlace (truncate and write over an existing regular Spec file, half of the time the file rewritten last; one time in four with content of exactly the same size and the previous modification time put back)."),
     "assumptions": ["valid Spec files may be symbolic links to regular files (inside or outside the directory; added after seeded change C01-3); symlinked directories and a configured 'directory' that is a regular file named *.json are not generated (stated don't-cares)",
                     "with a directory listed twice, whether GetVendorSpecs lists its Specs once or twice is not fixed by the statement (compared as a set)"],
     "manifest": {
@@ -371,7 +371,7 @@ PROPS["C16"] = {
              "defines it (then it must not resolve); (4) RemoveSpec(name) deletes exactly the target, and removing again or removing a "
              "never-written name succeeds and changes nothing. The last directory may also hold a subdirectory with a Spec defining the same devices. "
              "Non-trivial iff the id contains '/' or '.', the class ends in a Spec extension, "
-             "the last directory was missing, or pre-existing content is present; distinct = distinct cases."),
+             "the last directory was missing, or pre-existing content is present; distinct = distinct cases. The slice passed to WithSpecDirs is the caller's own; in half of the cases the caller overwrites every element of it (with a decoy directory) right after the cache was created."),
     "assumptions": ["WriteSpec may only fail for names containing NUL or longer than 255 bytes"],
     "manifest": {
         "text": "Random Specs, ids, generators and directory lists with whole-tree before/after snapshots as confinement oracle, read-back and cache resolution as functional oracle; sampling.",
@@ -400,7 +400,7 @@ PROPS["C14"] = {
              "*current* host nodes (so attributes left unspecified follow a host change); (4) write-back succeeds and reads back equal to "
              "the original file. One case = one history (~30 steps; counter 'steps'). Further actions: a request with one unresolvable name (must fail and leave no trace in later injections), a second injection and ApplyEdits into the same OCI spec object. "
              "Non-trivial iff >= 2 injections with a host change in "
-             "between on a node that needs the host; distinct = distinct histories."),
+             "between on a node that needs the host; distinct = distinct histories. Half of the fresh requests re-use the slice object of the previous request, overwritten in place with other names."),
     "assumptions": ["mknod available (root); otherwise host changes are limited to FIFO / regular file / missing and the evidence says so"],
     "manifest": {
         "text": "Model-based stateful test: the cache must stay equal to the generated files through any sequence of injections, edit applications and host-node changes; sampling of histories.",
@@ -467,7 +467,7 @@ PROPS["C18"] = {
              "accepts must satisfy every clause, what it refuses is counted. concurrent unit (race build): 2..6 goroutines validate their own "
              "library-valid Spec with the one builtin schema object at the same time - Validate(spec), ReadSpec with the schema installed, "
              "ValidateFile - 5..30 times each; what passes alone must pass then. Non-trivial iff the Spec has annotations, an integer extreme, or a string outside [A-Za-z0-9_./=-]*; "
-             "distinct = distinct Specs."),
+             "distinct = distinct Specs. The big-annotations unit also has Specs with three annotation sets (Spec, two devices) of 100 / 150 KiB each under different keys: each within the limit on its own."),
     "assumptions": ["'library-valid' is what the shared generator emits (checked per case by the precondition)", "the Spec validator is process-global: one case at a time per process, reset after each case"],
     "manifest": {
         "text": "Random library-valid Specs through the schema in memory and through the write / schema-checked read path in both encodings; sampling.",
@@ -521,7 +521,7 @@ PROPS["C11"] = {
     "rule": ("rapid state machine on an auto-refresh cache over 1..3 directories (each existing or missing at the start, optional initial file) "
              "plus an outside directory on the same file system; no Refresh() call anywhere. Actions: create+write, rewrite in place in "
              "two chunks, replace by temp file + rename inside the directory, move a complete file in from outside (onto a new or an "
-             "existing name), hard-link a file in, create an empty file, rename away to outside, rename to another Spec name or to a "
+             "existing name), hard-link a file in, make a Spec name a symbolic link (dangling, to a directory, to a file outside; in-place writers skip names that are links), create an empty file, rename away to outside, rename to another Spec name or to a "
              "non-Spec name inside the directory, remove, mkdir of a missing directory, remove a directory with its content (recreated by a "
              "later mkdir), rename a whole directory away from its configured path, rename a complete prepared directory into a missing "
              "configured path, rename one configured directory to the path of another, missing one, a plain query; file names x.json, y.yaml, z.json and the hidden .h.yaml; contents are valid Specs (2 kinds x 2 device names, unique marker), unparsable or empty; after every action a "
@@ -591,7 +591,7 @@ PROPS["C10"] = {
              "uncut write and writes cut at offset 0, at a drawn inner offset and beyond the end must each leave the complete previous or "
              "the complete new content (skipped and labelled mount-unavailable where mount(2) is refused). "
              "Non-trivial iff the fault lies strictly after the first and not after the last directory-changing call (resp. the write is cut "
-             "strictly inside the data) with a previous file present; distinct = distinct (Spec, encoding, initial state, call, fault)."),
+             "strictly inside the data) with a previous file present; distinct = distinct (Spec, encoding, initial state, call, fault). For refused opens (injected error on an openat of the Spec directory) on a directory holding a previous file, a second run adds a 7-byte file size limit for the writer: two faults in one run."),
     "assumptions": ["crash = death of the writer process; durability across power loss (unsynced page cache) is outside the statement",
                     "leftover spec.*.tmp files are admissible (never loaded); counted, not judged",
                     "strace must be able to attach (ptrace); otherwise the syscalls unit is skipped and labelled and the other three units still run"],
@@ -724,7 +724,7 @@ PROPS["C08"] = {
              "error. Global state (Spec validator, current schema) is reset at the top of every case, the validator reset itself under the "
              "watchdog (a lock leaked by the previous input shows there). Thorough tier adds native fuzzing "
              "of the same two oracles. Non-trivial iff the input passes tokenisation (it reaches unmarshalling or validation); distinct = "
-             "distinct (content, extension)."),
+             "distinct (content, extension). The hostile OCI environment also holds entries without '=' that spell the names of variables the edits set."),
     "assumptions": ["'hang' = no return within 20 s on inputs <= 64 KiB", "host device nodes named by fuzzed Specs are looked up on the real host; only crashes and hangs are judged there"],
     "manifest": {
         "text": ("Robustness fuzzing of every entry point that consumes untrusted data with generated, structure-aware and dictionary-driven "
